@@ -198,7 +198,11 @@ def hasJsonOnlyEscape : List Char → Bool
 def runJson (std : Stdlib) (c : Json) : R (Json × Option Json × Option String) := do
   let s ← strField c "s"
   let j ← parseJ ((optField c "json").getD .null)
-  let model := outcomeJson dataJson (Parse.valueWithConfig std s {})
+  -- a JSON document has no top-level comma: IgnoreCommas (with arrays and objects still enabled) must not change it
+  let pcfg : ParseCfg := match optField c "cfg" with
+    | some .null | none => {}
+    | some cj => parseParseCfg cj
+  let model := outcomeJson dataJson (Parse.valueWithConfig std s pcfg)
   let kf := if hasJsonOnlyEscape s.toList then some "D4" else none
   let oracle : Option Json ← match optField c "impl" with
     | none => pure none
